@@ -652,7 +652,7 @@ func spec_direct(u *gengotypes.Universe, q string) bool { return gengotypes.Spec
 //@   requires sw != nil
 
 //@ func snippetWriter.Render
-//@   props C01 C09 C04:frame C03
+//@   props C01 C09 C04:frame C03:frame
 //@   ordered
 //@   requires sw != nil
 //@   ensures snippet == nil || snippet.IsNil() ==> spec_written(sw.Writer) == old(spec_written(sw.Writer))
